@@ -61,14 +61,14 @@ func run(c *Ctx) error {
 		cases = append(cases, &wsim.Case{ID: len(cases), Seed: 1, Kind: k})
 	}
 	cases = append(cases, &wsim.Case{ID: len(cases), Seed: 1, Kind: "corpus-step-schedule", Sched: "step"})
-	n := c.N(140, 700)
+	n := c.N(100, 400)
 	kinds := []string{"random", "votes", "votes", "deep", "down", "down", "down"}
 	for i := 0; i < n; i++ {
 		cases = append(cases, &wsim.Case{ID: len(cases), Seed: c.Rng.Next(), Kind: kinds[c.Rng.Intn(len(kinds))]})
 	}
 	// a few random trees under the growing schedule (vetoes obey the consensus rule; the wallet's
 	// ValidHeight does not): more witnesses of the known finding, and agreement of the model on them
-	for i := 0; i < c.N(8, 30); i++ {
+	for i := 0; i < c.N(6, 20); i++ {
 		cases = append(cases, &wsim.Case{ID: len(cases), Seed: c.Rng.Next(), Kind: "votes", Sched: "step"})
 	}
 	res, err := wsim.RunAll("c25", cases)
